@@ -303,7 +303,7 @@ func init() {
 		func() GridDriver { return NewFeeGridIR(1, 2) }, func() GridDriver { return NewFeeGridIR(4, 3) },
 	}, 25, 120, nil)
 	{
-		// C19: five ledger explorations (Notary on/off x Alphabet sizes) + the emit/acceptance grid
+		// C19: six ledger explorations (Notary on/off x Alphabet sizes) + the emit/acceptance grid
 		mkG := func(notary bool, n int) func() Driver { return func() Driver { return NewGasDriver(notary, n) } }
 		Registry["C19"] = &Check{
 			Run: func(tier string, seed int64) int {
@@ -314,7 +314,7 @@ func init() {
 					name   string
 					notary bool
 					n      int
-				}{{"neofs-gas-notary-n1", true, 1}, {"neofs-gas-notary-n4", true, 4}, {"neofs-gas-legacy-n1", false, 1}, {"neofs-gas-legacy-n2", false, 2}, {"neofs-gas-legacy-n4", false, 4}} {
+				}{{"neofs-gas-notary-n1", true, 1}, {"neofs-gas-notary-n3", true, 3}, {"neofs-gas-notary-n4", true, 4}, {"neofs-gas-legacy-n1", false, 1}, {"neofs-gas-legacy-n2", false, 2}, {"neofs-gas-legacy-n4", false, 4}} {
 					o := Options{Property: "C19", Tier: tier, Seed: seed, Workers: Workers(), Depth: 4, ConfCap: 40, Deadline: 8 * time.Minute}
 					if tier == "thorough" {
 						o.Depth, o.ConfCap, o.Deadline = 6, 200, 60*time.Minute
